@@ -97,3 +97,31 @@ Example C01_nonvacuous :
                  {| oc_id := 40; oc_name := "a"; oc_args := []; oc_sub := [] |}]);
           ("b", [{| oc_id := 30; oc_name := "b"; oc_args := []; oc_sub := [] |}])].
 Proof. split; reflexivity. Qed.
+
+(* ---- completeness of CollectFields through named fragment spreads (Proofs/CollectComplete.v);
+        no acyclicity of the fragment table is assumed ---- *)
+From GQL Require Import Proofs.CollectComplete.
+Local Close Scope N_scope.
+
+(* Every included, type-matching occurrence reachable from the selection set -- through any chain of
+   inline fragments and named spreads, fragment cycles allowed -- is collected. *)
+Theorem C01_collect_complete : forall fuel S D vars obj sels g' v',
+  collect fuel S D vars obj sels [] [] = Some (g', v') ->
+  forall k o, Occurs S D vars obj sels k o -> in_group g' k o.
+Proof. exact collect_complete_full. Qed.
+Print Assumptions C01_collect_complete.
+
+(* A response key is present iff at least one of its occurrences is included. *)
+Theorem C01_key_present_iff : forall fuel S D vars obj sels g' v',
+  collect fuel S D vars obj sels [] [] = Some (g', v') ->
+  (forall k, In k (map fst g') <-> exists o, Occurs S D vars obj sels k o).
+Proof. exact collect_key_present. Qed.
+Print Assumptions C01_key_present_iff.
+
+(* The merged sub-selection of a field group (what exec_object collects: several selection sets,
+   one visited list) holds exactly the included occurrences of its selection sets. *)
+Theorem C01_collect_all_exact : forall fuel S D vars obj sets g',
+  collect_all fuel S D vars obj sets [] [] = Some g' ->
+  forall k o, in_group g' k o <-> exists s, In s sets /\ Occurs S D vars obj s k o.
+Proof. exact collect_all_exact_full. Qed.
+Print Assumptions C01_collect_all_exact.
